@@ -159,3 +159,14 @@ CHECKS["C04"] = dict(
         "lost-connection behaviour of calls is exercised by C09's sessions with the same oracle",
     ],
 )
+
+CHECKS["C09"] = dict(
+    parts=[dict(pkg="net", run="^TestC09_")], level="fault_enumeration",
+    quick=dict(shards=16, checks=40, timeout=1500),
+    thorough=dict(shards=16, checks=400, timeout=6000),
+    assumptions=[
+        "a silent black hole (bytes dropped without FIN/RST) is not generated: the protocol has no heartbeat, and 'transport fails' is read as a failure the local socket can observe",
+        "time bounds (10 s) are measured from the moment the FIN/RST is issued by the proxy",
+        "goroutine check is a stack-signature check for per-connection/per-channel functions (the library keeps an idle worker pool by design)",
+    ],
+)
